@@ -617,7 +617,9 @@ pub enum Subsystem {
 }
 
 impl Subsystem {
-    fn from_frame(mut r: Frame) -> Option<Subsystem> {
+    /// Take the next reported subsystem out of a reply to `idle`. A single reply can list several
+    /// subsystems, call this until it returns `None`.
+    fn from_frame(r: &mut Frame) -> Option<Subsystem> {
         r.get("changed").map(|raw| match &*raw {
             "database" => Subsystem::Database,
             "message" => Subsystem::Message,
